@@ -409,12 +409,19 @@ def kwIssues (cls : FieldDecl) (kw : List (String × PyVal)) : List String :=
   | _ => ["not-a-class"]
 
 
-/-! ### documents of classes with mappers, read back to field names (driver only: lets the
-    document-level defect names be computed for class trees with mappers) -/
+/-! ### documents of classes with mappers, read back to field names: `untrV Mp cls d` is the
+    document `d` with the keys of every class-level object translated back to field names by that
+    class's own simple mapper (declared fields first, in field order, then the other entries).
+    Props/C10.lean: `trusted_mapper_factor` (the trusted path with mappers is the mapper-free
+    trusted path on this document) and `deserializeMapped` (the regular path with per-class
+    simple mappers on documents spelled with the classes' own keys). -/
 
 def isContainerD : FieldDecl → Bool
   | .struct _ _ _ | .seqOf _ _ _ | .setOf _ _ _ => true
   | _ => false
+
+/-- the entries of a keyword list as a dict -/
+def dictOfKw (kw : List (String × PyVal)) : PyVal := .dict (kw.map fun a => (PyVal.str a.1, a.2))
 
 mutual
 def untrV (Mp : MapEnv) : FieldDecl → PyVal → PyVal
@@ -423,9 +430,8 @@ def untrV (Mp : MapEnv) : FieldDecl → PyVal → PyVal
     else (match v with
       | .dict kvs => (match kwOfDict kvs with
         | some doc =>
-          let doc' := remapDoc (Mp c.name) (fields.map (·.1)) doc
-          .dict (untrFields Mp doc' fields
-                  ++ (doc'.filter fun a => !(fields.map (·.1)).contains a.1).map fun a => (PyVal.str a.1, a.2))
+          dictOfKw (untrKw Mp (remapDoc (Mp c.name) (fields.map (·.1)) doc) fields
+            ++ (remapDoc (Mp c.name) (fields.map (·.1)) doc).filter fun a => !(fields.map (·.1)).contains a.1)
         | none => v)
       | _ => v)
   | .seqOf _ item _, v => (match v with | .list xs => .list (xs.map (untrV Mp item)) | _ => v)
@@ -455,13 +461,23 @@ def untrFirst (Mp : MapEnv) : List FieldDecl → PyVal → PyVal
   | [], v => v
   | f :: fs, v => if isContainerD f then untrV Mp f v else untrFirst Mp fs v
 termination_by structural fs _ => fs
-def untrFields (Mp : MapEnv) (doc : List (String × PyVal)) : List (String × FieldDecl) → List (PyVal × PyVal)
+def untrKw (Mp : MapEnv) (doc : List (String × PyVal)) : List (String × FieldDecl) → List (String × PyVal)
   | [] => []
   | (n, f) :: rest =>
     (match lookup n doc with
-      | some v => [(PyVal.str n, untrV Mp f v)]
-      | none => []) ++ untrFields Mp doc rest
+      | some v => [(n, untrV Mp f v)]
+      | none => []) ++ untrKw Mp doc rest
 termination_by structural fs => fs
 end
+
+/-- **the regular path with key-renaming mappers**, on documents spelled with every class's own
+    keys: each class-level object is read through its class's mapper (`_deserialization_mapper`,
+    else `_serialization_mapper`, declared or inherited: `MapperDecl.resolved`), then deserialized
+    by the mapper-free regular path `Sem/Deser.deserialize`.  Outside this description (known
+    findings `mapper:cascade`, `mapper:base-chain`, `mapper:fallback`): TO_CAMELCASE / TO_LOWERCASE
+    of an enclosing class reaching nested classes, a parent's mapper chained with the class's own,
+    documents that also spell a renamed field by its field name. -/
+def deserializeMapped (Mp : MapEnv) (O : Oracles) (opts : DeserOpts) (cls : FieldDecl) (d : PyVal) : R PyVal :=
+  deserialize O opts cls (untrV Mp cls d)
 
 end Typedpy
